@@ -284,6 +284,7 @@ def jobs(tier):
     T = tier == "thorough"
     js = [Job("burst2beat_inductive_step", build_b2b_step, {}, cost=5), Job("burst2beat_invariant_initial", build_b2b_init, {}, cost=1),
           Job("burst2beat_inductive_step_aw16_size7", build_b2b_step, dict(aw=16, maxsize=7), cost=10), Job("burst2beat_invariant_initial_aw16_size7", build_b2b_init, dict(aw=16, maxsize=7), cost=1),
+          Job("burst2beat_inductive_step_aw40", build_b2b_step, dict(aw=40, maxsize=3), cost=10), Job("burst2beat_invariant_initial_aw40", build_b2b_init, dict(aw=40, maxsize=3), cost=1),
           Job("burst2beat_bmc", build_b2b_bmc, dict(K=24 if T else 10), cost=20 if T else 5),
           Job("axi_conv_req_64to32", build_convreq, dict(dwm=64, dws=32), cost=2), Job("axi_conv_req_32to64", build_convreq, dict(dwm=32, dws=64), cost=2),
           Job("axi_conv_req_32to8", build_convreq, dict(dwm=32, dws=8), cost=2),
